@@ -89,7 +89,7 @@ func genCase(t *rapid.T) limCase {
 	}
 	rate := fmt.Sprintf("%d/%dms", c.PerTick, c.TickMs)
 	planLen := "10s"
-	if limited && (c.Mode == "staged" || c.Mode == "file") && rapid.IntRange(0, 2).Draw(t, "shortPlan") == 0 {
+	if limited && (c.Mode == "staged" || c.Mode == "file") && rapid.Bool().Draw(t, "shortPlan") {
 		// the trigger ends by itself long before max-duration: the limit must hold all the same. The
 		// trigger may end before the limit is reached, so only "never more than N" is asserted.
 		c.ShortPlan = true
@@ -198,8 +198,17 @@ func TestProp_LimitIsExact(t *testing.T) {
 		spec.Opts.MaxDuration = c.MaxDur
 		spec.Opts.MaxIterations = c.N
 		spec.Opts.IgnoreDropped = true
+		// one case in four goes through the public entry point (f1.New().Add().ExecuteWithArgs): the
+		// CLI's own mapping of --max-iterations / --concurrency / the config file's limits onto the run
+		viaCLI := rapid.IntRange(0, 3).Draw(rt, "viaCLI") == 0
 		start := time.Now()
-		out, err := vlib.Execute(spec)
+		var out *vlib.RunOutcome
+		var err error
+		if viaCLI {
+			_, err = vlib.ExecuteCLI(spec)
+		} else {
+			out, err = vlib.Execute(spec)
+		}
 		if err != nil {
 			rt.Fatalf("VERIF-INFRA: cannot execute %s: %v", c.desc(), err)
 		}
@@ -209,7 +218,6 @@ func TestProp_LimitIsExact(t *testing.T) {
 		mu.Unlock()
 		sort.Slice(got, func(i, j int) bool { return got[i] < got[j] })
 		inv := invocations.Load()
-		snap := out.Result.Snapshot()
 
 		contended := c.N > 0 && c.Conc >= 4 && c.PerTick >= 2
 		nontrivial := contended || c.LaterFile
@@ -232,8 +240,11 @@ func TestProp_LimitIsExact(t *testing.T) {
 		if c.ShortPlan {
 			cls = append(cls, "trigger-ends-before-max-duration")
 		}
+		if viaCLI {
+			cls = append(cls, "through-the-cli")
+		}
 		stats.Case("runs", c.desc(), nontrivial, cls, func() any {
-			return map[string]any{"case": c.desc(), "invocations": inv, "elapsed_ms": elapsed.Milliseconds()}
+			return map[string]any{"case": c.desc(), "invocations": inv, "elapsed_ms": elapsed.Milliseconds(), "through_the_cli": viaCLI}
 		})
 
 		mu.Lock()
@@ -262,6 +273,10 @@ func TestProp_LimitIsExact(t *testing.T) {
 				return
 			}
 		}
+		if out == nil {
+			return
+		}
+		snap := out.Result.Snapshot()
 		if tot := snap.SuccessfulIterationDurations.Count + snap.FailedIterationDurations.Count; tot != inv {
 			rt.Fatalf("VERIF-VIOLATION C03: %d invocations but the result reports %d started iterations (%s)", inv, tot, c.desc())
 		}
